@@ -674,6 +674,11 @@ fn render_lexer(variant: usize, ntoks: usize, comments: bool) -> String {
     }
     s.push_str("%%\n");
     let tab = lex_table(variant);
+    // a named rule whose token the grammar does not know (a reserved word ahead of the other rules):
+    // both pipelines must stop with a lexing error where it matches
+    if comments || variant == 1 {
+        s.push_str("zz \"RESERVED\"\n");
+    }
     for t in 0..ntoks {
         s.push_str(&format!("{} \"t{}\"\n", tab[t].0, t));
     }
@@ -809,6 +814,9 @@ fn render_input(toks: &[usize], variant: usize, comments: bool, rng: &mut Rng) -
     for (i, t) in toks.iter().enumerate() {
         if i > 0 || rng.chance(1, 6) {
             s.push_str(*rng.pick(&[" ", " ", "  ", "\n", "\t"]));
+        }
+        if (comments || variant == 1) && rng.chance(1, 12) {
+            s.push_str("zz ");
         }
         if comments && rng.chance(1, 8) {
             // plain, nested (the opening rule is reached while COMMENT is active) and doubly nested
